@@ -327,5 +327,97 @@ def Sched.runBursts (maxEntries : Nat) (φ : Nat → Outcome) (fmt : Format) (cr
     (bursts : List (List Msg)) : Sched :=
   bursts.foldl (fun s g => Sched.endBurst φ (g.foldl (Sched.step maxEntries φ fmt crc) s)) s
 
+/-! ## the caller's side of `write_durable`: the 5 s ack timeout, on a virtual clock
+
+  `write_durable` sends the message and then awaits `tokio::time::timeout(5 s, ack_rx)`:
+  `Ok(Ok(result)) => result`, `Ok(Err(_))` (the sender was dropped) => I/O error "dropped ack channel",
+  `Err(_)` (deadline) => `FsyncFailed("WAL write timed out")`.  `Timeout::poll` polls the inner future
+  FIRST (a value that is there wins even when the deadline has passed) and the deadline second.  The
+  actor never learns what the caller did: `let _ = tx.send(..)`.  Time is a `Nat` of microseconds
+  carried by the events; nothing here reads a wall clock. -/
+
+/-- `Duration::from_secs(5)` of `write_durable`, in microseconds -/
+def ackTimeoutUs : Nat := 5000000
+
+/-- what `write_durable` returns -/
+inductive Seen where
+  | ack (a : Ack)     -- the actor's answer, as sent
+  | unavailable       -- the send failed: the actor is gone ("WAL actor unavailable")
+  | dropped           -- the ack sender was dropped unanswered ("WAL actor dropped ack channel")
+  | timedOut          -- the deadline passed first ("WAL write timed out")
+  deriving DecidableEq, Repr, Inhabited
+
+/-- the oneshot channel as the waiting caller finds it -/
+inductive Slot where
+  | empty
+  | value (a : Ack)
+  | closed
+  deriving DecidableEq, Repr, Inhabited
+
+/-- what happens around one waiting caller, in the order the runtime processes it, each with the
+    virtual time at which it happens -/
+inductive CEv where
+  | deliver (now : Nat) (a : Ack)   -- the actor executes `tx.send(a)`
+  | close (now : Nat)               -- the actor drops the sender without sending
+  | poll (now : Nat)                -- the runtime polls the caller's `timeout(5 s, ack_rx)`
+  deriving DecidableEq, Repr, Inhabited
+
+structure Caller where
+  deadline : Nat
+  slot : Slot := .empty
+  result : Option Seen := none
+  deriving DecidableEq, Repr
+
+/-- one event at the caller.  `ackWinsOnlyBeforeDeadline = false` is the CODE (`Timeout::poll`: inner
+    future first); `timeoutMeansOk = true` is the variant in which the `Err(_)` arm of `write_durable`
+    answers `Ok(())` — kept to state what goes wrong with it -/
+def Caller.step (timeoutMeansOk : Bool) (c : Caller) : CEv → Caller
+  | .deliver _ a =>
+    (match c.result, c.slot with
+    | none, .empty => { c with slot := .value a }
+    | _, _ => c)     -- the receiver is gone or the channel is used up: `let _ = tx.send(..)`
+  | .close _ =>
+    (match c.result, c.slot with
+    | none, .empty => { c with slot := .closed }
+    | _, _ => c)
+  | .poll now =>
+    (match c.result with
+    | some _ => c
+    | none =>
+      match c.slot with
+      | .value a => { c with result := some (.ack a) }
+      | .closed => { c with result := some .dropped }
+      | .empty =>
+        if c.deadline ≤ now then { c with result := some (if timeoutMeansOk then .ack .ok else .timedOut) } else c)
+
+/-- a caller whose message was accepted at virtual time `sentAt` -/
+def Caller.start (sentAt : Nat) : Caller := { deadline := sentAt + ackTimeoutUs }
+
+def Caller.run (timeoutMeansOk : Bool) (sentAt : Nat) (evs : List CEv) : Caller :=
+  evs.foldl (Caller.step timeoutMeansOk) (Caller.start sentAt)
+
+/-- the events at a caller whose message went out at time 0 and whose ack the actor sends `delay`
+    later (`delay ≠ 5 s`; at exactly 5 s the two wake-ups race): polled when it starts to wait, then
+    at whichever comes first, the ack or the deadline -/
+def callerEvents (delay : Nat) (a : Ack) : List CEv :=
+  if delay < ackTimeoutUs then [.poll 0, .deliver delay a, .poll delay]
+  else [.poll 0, .poll ackTimeoutUs, .deliver delay a, .poll delay]
+
+/-- what such a caller is told -/
+def seenAfter (delay : Nat) (a : Ack) : Option Seen := (Caller.run false 0 (callerEvents delay a)).result
+
+/-- the `write_durable` callers whose ack is only sent when the group-commit WAIT runs out —
+    `group_commit_max_wait` after their burst: everybody still pending at the end of a burst that the
+    loop sits out in its wait phase (a flush forced by `max_entries` or by a `Shutdown` happens at once) -/
+def Sched.lateIds (s : Sched) : List Nat :=
+  if s.alive && s.phase == .block then s.a.pending.map (·.1) else []
+
+/-- `Sched.runBursts`, also collecting the late callers of every burst -/
+def Sched.runBurstsLate (maxEntries : Nat) (φ : Nat → Outcome) (fmt : Format) (crc : Bytes → Nat) (s : Sched)
+    (bursts : List (List Msg)) : Sched × List Nat :=
+  bursts.foldl (fun (p : Sched × List Nat) g =>
+    let s1 := g.foldl (Sched.step maxEntries φ fmt crc) p.1
+    (Sched.endBurst φ s1, p.2 ++ s1.lateIds)) (s, [])
+
 end Wal
 end RedisVerif
